@@ -103,6 +103,8 @@ enum Dec {
 pub struct Prog<'a> {
     /// set before a call that the property says MUST fail (undersized target, truncated skippable frame, trailing garbage): a success is then an oracle failure
     pub must_fail: Option<String>,
+    /// the truth comes from the (lenient) reference decoder accepting a MUTATED frame: not certain to be a valid frame
+    pub lenient_truth: bool,
     /// `reset`/`init` succeeded on the current source (the decoder state describes THIS frame, not an earlier one)
     pub began: bool,
     pub run: &'a mut Run,
@@ -118,6 +120,7 @@ impl<'a> Prog<'a> {
     pub fn new(run: &'a mut Run, label: &str) -> Self {
         let mut p = Prog {
             must_fail: None,
+            lenient_truth: false,
             began: false, run, dec: Dec::Plain(FrameDecoder::new(), FragReader::new(vec![], vec![])), delivered: vec![], truth: None, lines: vec![], failed: false, label: label.to_string() };
         p.emit("dec new".into(), "ok".into());
         p
@@ -144,6 +147,16 @@ impl<'a> Prog<'a> {
         let r = self.replay_text();
         let label = self.label.clone();
         self.run.fail(prop, sig, format!("[{}] {}", label, what), r);
+    }
+    /// the source is one complete VALID frame (the harness knows the original data, the reference decoder reproduces
+    /// it, every dictionary it needs is registered) and the decoder reports an error: C01's own words are violated
+    fn rejected(&mut self, op: &str, err: &str) {
+        let complete = self.truth.as_ref().map(|t| t.complete).unwrap_or(false);
+        // a window above the configured limit is a legitimate refusal (C11)
+        if complete && !self.lenient_truth && err.starts_with("err") && !err.starts_with("err windowOverLimit") {
+            self.run.oracle_checks += 1;
+            self.oracle_fail("C01", "rejects_valid_frame", format!("{} failed with `{}` on a complete valid frame", op, err));
+        }
     }
     fn unstream(&mut self) {
         if let Dec::Streaming(_) = self.dec {
@@ -213,6 +226,9 @@ impl<'a> Prog<'a> {
         };
         self.failed = !ok;
         self.began = ok;
+        if !ok {
+            self.rejected("reset", &s);
+        }
         self.emit("dec reset".into(), s);
         ok
     }
@@ -272,6 +288,9 @@ impl<'a> Prog<'a> {
             }
         };
         let _ = before;
+        if self.failed {
+            self.rejected("decode_blocks", &s);
+        }
         self.emit(format!("dec blocks {}", strat), s);
         self.check_progress();
     }
@@ -414,6 +433,9 @@ impl<'a> Prog<'a> {
                 "fault".into()
             }
         };
+        if self.failed {
+            self.rejected("StreamingDecoder::read", &s);
+        }
         self.emit(format!("dec sread {}", n), s);
         self.check_progress();
     }
@@ -721,6 +743,19 @@ pub fn run(opts: &Opts) -> Run {
         }
     }
     run.stat("repo_corpus_frames", corpus_cases.len() as u64);
+    // one block with > 64 KiB of Huffman-compressed literals (four streams, the first three together above 65535 bytes):
+    // decoded once by the model too
+    {
+        let d: Vec<u8> = (0..133_000).map(|_| 32 + rng.below(64) as u8).collect();
+        let f = gen::zstd_frame(&d, &gen::ZParams { level: 1, window_log: None, ldm: false, checksum: true, content_size: false, flush_every: None, min_match: None, strategy_btultra: false }, None);
+        let mut p = Prog::new(&mut run, "big four-stream literals (133000 bytes of 64-value noise)");
+        p.set_src(f.clone(), vec![], Some(Truth { original: d, frame_len: f.len(), complete: true, has_checksum: true }));
+        if p.reset() {
+            p.blocks("all");
+            p.collect();
+        }
+        p.run.stat("big_literal_programs", 1);
+    }
     let n_corpus = corpus_cases.len();
     for i in 0..(n + n_corpus) {
         let c = if i < n_corpus { corpus_cases[i].clone_case() } else { gen_case(&mut rng, max, i) };
